@@ -34,10 +34,11 @@ Connected(c, i, j) == j \in CompF(c)[i]
 (* A second, independent formulation (Warshall), used only to cross-check  *)
 (* the closure above on the enumerated universe.                           *)
 (***************************************************************************)
-RECURSIVE W(_, _, _, _)
-W(c, k, i, j) ==
-    IF k = 0 THEN i = j \/ Edge(c, i, j)
-    ELSE W(c, k - 1, i, j) \/ (W(c, k - 1, i, k) /\ W(c, k - 1, k, j))
+RECURSIVE WF(_, _)
+WF(c, k) ==
+    IF k = 0 THEN [p \in Nodes(c) \X Nodes(c) |-> p[1] = p[2] \/ Edge(c, p[1], p[2])]
+    ELSE LET prev == WF(c, k - 1)
+         IN  [p \in Nodes(c) \X Nodes(c) |-> prev[p] \/ (prev[<<p[1], k>>] /\ prev[<<k, p[2]>>])]
 
 (* ---- laws of Req (checked by TLC on every enumerated graph) ---- *)
 LawEquivalence(c) ==
@@ -52,7 +53,7 @@ LawLeast(c) ==
                 \A f \in [Nodes(c) -> Nodes(c)] :
                    (\A k \in DOMAIN c.e : f[c.e[k][1]] = f[c.e[k][2]])
                    => \A i, j \in Nodes(c) : j \in cf[i] => f[i] = f[j]
-LawWarshall(c) == LET cf == CompF(c) IN \A i, j \in Nodes(c) : (j \in cf[i]) <=> W(c, c.n, i, j)
+LawWarshall(c) == LET cf == CompF(c)  w == WF(c, c.n) IN \A i, j \in Nodes(c) : (j \in cf[i]) <=> w[<<i, j>>]
 LawNoEdgeNoLink(c) == Len(c.e) = 0 => LET cf == CompF(c) IN \A i, j \in Nodes(c) : (j \in cf[i]) <=> i = j
 
 (***************************************************************************)
